@@ -1682,12 +1682,91 @@ def mutex_probes(rec, ctx, rng):
     rec.case()
 
 
+def fork_while_held(rec, ctx, rng):
+    """a process forked while the parent holds the object does not hold it"""
+    from vmon import c17_helpers as H2
+    A = {'mode': 'fork_while_held'}
+
+    def get(conn, what, timeout=40):
+        if not conn.poll(timeout):
+            return ('silent', None)
+        try:
+            return conn.recv()
+        except EOFError:
+            return ('eof', None)
+
+    makers = [('Lock', ctx.Lock), ('RLock', ctx.RLock), ('Condition', ctx.Condition),
+              ('Condition(Lock)', lambda: ctx.Condition(ctx.Lock())),
+              ('Semaphore(1)', lambda: ctx.Semaphore(1))]
+    rng.shuffle(makers)
+    for kind, mk in makers[:3]:
+        obj = mk()
+        r, w = ctx.Pipe(False)
+        depth = rng.choice([1, 2]) if kind in ('RLock', 'Condition') else 1
+        for _ in range(depth):
+            obj.acquire()
+        p = ctx.Process(target=H2.held_child, args=(obj, w))
+        p.daemon = True
+        p.start()
+        w.close()
+        a = dict(A, kind=kind)
+        m = get(r, 'try')
+        rec.count('fork_while_held_probes')
+        if m[0] == 'raised':
+            rec.violation('unexpected_exception', dict(a, probe='child try'), tb=m[1])
+        elif m != ('try', False):
+            rec.violation('lock_admitted_second_holder', dict(a, how='forked while the parent holds it'),
+                          got=m)
+        for _ in range(depth):
+            obj.release()
+        m = get(r, 'blocking')
+        if m[0] == 'raised':
+            rec.violation('unexpected_exception', dict(a, probe='child blocking'), tb=m[1])
+        elif m != ('blocking', True):
+            rec.violation('lock_unavailable', dict(a, how='free again, forked child waiting'), got=m)
+        p.join(20)
+        if p.is_alive():
+            os.kill(p.pid, signal.SIGKILL)
+            p.join(5)
+        r.close()
+    # handshake: the child is started inside the parent's `with cond:`
+    for kind, mk in (('Condition', ctx.Condition), ('Condition(Lock)', lambda: ctx.Condition(ctx.Lock()))):
+        cond = mk()
+        r, w = ctx.Pipe(False)
+        a = dict(A, kind=kind, probe='handshake')
+        with cond:
+            p = ctx.Process(target=H2.notify_child, args=(cond, w))
+            p.daemon = True
+            p.start()
+            w.close()
+            time.sleep(rng.choice([0, 0.02, 0.1]))
+            early = r.poll(0)
+            woke = cond.wait(25)
+        rec.count('fork_while_held_handshakes')
+        m = get(r, 'inside', 15)
+        if early:
+            rec.violation('lock_admitted_second_holder', dict(a, how='child inside while the parent holds it'),
+                          got=m)
+        elif m[0] == 'raised':
+            rec.violation('unexpected_exception', a, tb=m[1])
+        elif not woke:
+            rec.violation('lost_wakeup', a, child=m)
+        p.join(20)
+        if p.is_alive():
+            os.kill(p.pid, signal.SIGKILL)
+            p.join(5)
+        r.close()
+    rec.case()
+
+
 def run_mutex(spec, rec):
     import billiard
     ctx = billiard.get_context('fork')
     rng = rng_for(spec['seed'], 'mutex')
     for _ in range(6):
         mutex_probes(rec, ctx, rng)
+    for _ in range(2):
+        fork_while_held(rec, ctx, rng)
     configs = [('Lock', 1), ('RLock', 1), ('Semaphore', 1), ('Semaphore', 3),
                ('BoundedSemaphore', 2), ('BoundedSemaphore', 1), ('Semaphore', 2),
                ('BoundedSemaphore', 4)]
